@@ -92,7 +92,7 @@ def answer (fn : String) (bytes : List UInt8) (a1 a2 : Option Nat) : String :=
     let tok := readTokenSeparator cm it fuel
     let skip := skipInstance cm it fuel
     let rc := readComment cm it fuel
-    let sr := stepReadNoAttrs C05.recoveryScanStaysInRecord C05.recoveryScanPutsBackSemi cm it fuel
+    let sr := stepReadNoAttrs C05.recoveryScanStaysInRecord C05.recoveryScanCountsQuotes C05.recoveryScanPutsBackSemi cm it fuel
     let idOf := fun (s : IS) => (s.pre.takeWhile isDigit).reverse.foldl (fun v d => v * 10 + (d.toNat - 48)) 0
     showData (readData2 (readInstanceSkel (fun s => if mask.testBit (idOf s) then 2 else 0) (rdKw sr tok skip) rc tok skip)
       cm false it C05.maxErrorCount fuel (IS.ofBytes bytes))
@@ -124,7 +124,7 @@ def answer (fn : String) (bytes : List UInt8) (a1 a2 : Option Nat) : String :=
     showData (readData1 ⟨fun _ => false, knownC05a, fun _ => false⟩ C05.imbedAggrStaysInRecord C05.entNmArrGuard C05.skipInstanceSkipsComments true C05.readCommentIters
       C05.maxErrorCount fuel (IS.ofBytes bytes))
   | "recover" =>
-    showLoop (fun _ => "") (stepReadNoAttrs C05.recoveryScanStaysInRecord C05.recoveryScanPutsBackSemi C05.skipInstanceSkipsComments
+    showLoop (fun _ => "") (stepReadNoAttrs C05.recoveryScanStaysInRecord C05.recoveryScanCountsQuotes C05.recoveryScanPutsBackSemi C05.skipInstanceSkipsComments
       C05.readCommentIters fuel (IS.ofBytes bytes))
   | "exportlist" => showLoop (fun _ => "") (exportLoop C05.exportLoopChecksStreamCreate C05.skipInstanceSkipsComments C05.readCommentIters fuel (IS.ofBytes bytes) chComma 0)
   | _ => "bad-op"
